@@ -245,6 +245,18 @@ class NPF64:
 
     last_nextafter: list = []
 
+    def isclose(self, a, b, rtol=1e-05, atol=1e-08, **k):
+        """documented definition |a - b| <= atol + rtol*|b|, elementwise; works on object arrays holding proxies"""
+        a_ = np.asarray(a, dtype=object)
+        b_ = np.asarray(b, dtype=object)
+        if a_.dtype != object and b_.dtype != object:
+            return np.isclose(a, b, rtol=rtol, atol=atol, **k)
+        out = np.empty(a_.shape, dtype=bool)
+        for idx in np.ndindex(a_.shape):
+            x, y = a_[idx], b_[idx]
+            out[idx] = bool(abs(x - y) <= atol + rtol * abs(y))
+        return out
+
     def isnan(self, x):
         from .proxies import is_sym
         if is_f64(x) or is_sym(x):
